@@ -14,6 +14,9 @@ def jobs(rng, thorough):
     out = []
     for _ in range(n):
         out.append((gen.conn_traffic(rng), rng.randrange(10 ** 9), rng.choice([0, 0, 3, 6])))
+    for _ in range(n // 4):
+        # callers whose own SYS:MODELNAME queries mix with the library's keep-alive probes (slow or sleeping receivers)
+        out.append((gen.conn_keepalive(rng), rng.randrange(10 ** 9), rng.choice([0, 0, 3])))
     return out
 
 
@@ -25,10 +28,17 @@ def jobs_slow(rng, thorough):
     return out
 
 
+def jobs_api(rng, thorough):
+    """third pass, monitor only: submissions through YncaApi.send_raw (texts with bare LF / CR, other Unicode line boundaries, blanks, repeats)"""
+    T = core.tables()
+    return [(gen.api_raw(rng, T), rng.randrange(10 ** 9), 0) for _ in range(4000 if thorough else 100)]
+
+
 def run(ctx: core.Ctx):
     ctx.lean_stage()
     b2check.run_b2(ctx, jobs, ["C01"], label="traffic scenarios")
     b2check.run_b2(ctx, jobs_slow, MONS, label="slow (blocking) writes, monitor only", accept=False)
+    b2check.run_b2(ctx, jobs_api, MONS, label="YncaApi.send_raw after initialize(), monitor only", accept=False)
     ctx.info["rule"] = ("sessions of 1..4 callers with bursts of unique commands and idle gaps around the keep-alive interval; each under a seeded schedule with extra line-level preemptions; a case = one schedule; "
                         "non-trivial = distinct (spec, seed)")
     return ctx.finish()
